@@ -26,9 +26,9 @@ ASSUMPTIONS = [
     "ratios and cell sums judged with 1e-4, centres and rigid offsets with 1e-6 x die size, cell geometry with 1e-9 relative",
     "total module area is kept below ~60% of the refinable area so that instances are usually feasible",
 ]
-CASES = {"quick": 320, "thorough": 20000}
-MIN_CASES = {"quick": 80, "thorough": 1500}
-MIN_COUNTERS = {"quick": {"returned": 40}, "thorough": {"returned": 600}}
+CASES = {"quick": 600, "thorough": 20000}
+MIN_CASES = {"quick": 150, "thorough": 1500}
+MIN_COUNTERS = {"quick": {"returned": 80}, "thorough": {"returned": 600}}
 REQUIRED_CLASSES = ["clash", "synthetic_mirror"]
 REQUIRED_COUNTERS = ["synthetic_extractions_judged", "returned", "iterations_judged_by_contract", "final_returns_judged", "cells_checked", "hard_modules_checked", "fixed_modules_checked"]
 SOFT_DEADLINE = {"quick": 240, "thorough": 3300}
